@@ -111,16 +111,16 @@ CHECKS["C04"] = {
                   "pairs (blank/TAB as comment character, same character in both sets, brackets, quote or NL in a set); every successful "
                   "object goes through every listing, typed/defaulted/extended getter, write + re-read; all ordered pairs of distinct object shapes are merged; "
                   "oracle = termination, documented return code, no ASan/UBSan report",
-    "level_note": "bounded: n<=4 all 63 configurations / n<=5 nine core configurations, m<=2 all / m<=3 four core configurations (quick); n<=5 / 6, m<=3 all / m<=4 four core (thorough); merge pairs over the shapes "
+    "level_note": "bounded: n<=4 all 63 configurations / n<=5 nine core configurations, m<=2 all / m<=3 three core configurations (quick); n<=5 / 6, m<=3 all / m<=4 four core (thorough); merge pairs over the shapes "
                   "reachable from the bounded inputs; trusted: gcc ASan+UBSan, the shape abstraction (merge looks only at equal group names, equal keys, NULL values)",
     "rule": "case = (configuration, content); non-trivial = the read succeeded and the object was exercised; distinct by construction; merge part: ordered pairs "
             "of objects with distinct listing shapes (groups/keys renamed by first occurrence, NULL-ness of values, empty sections)",
     "deadline": {"quick": 110, "thorough": 1500},
     "parts": [
         {"name": "bytes", "harness": "c04", "variant": "asan", "ldflags": ["-pthread"], "quick": ["--p0", 0, "--p1", 4, "--p2", 5], "thorough": ["--p0", 0, "--p1", 5, "--p2", 6],
-         "deadline_share": 0.4, "floor": {"quick": 100000, "thorough": 1000000}},
-        {"name": "lines", "harness": "c04", "variant": "asan", "ldflags": ["-pthread"], "quick": ["--p0", 1, "--p1", 2, "--p2", 3, "--p3", 4], "thorough": ["--p0", 1, "--p1", 3, "--p2", 4, "--p3", 4],
-         "deadline_share": 0.4, "floor": {"quick": 50000, "thorough": 1000000}},
+         "deadline_share": 0.3, "floor": {"quick": 100000, "thorough": 1000000}},
+        {"name": "lines", "harness": "c04", "variant": "asan", "ldflags": ["-pthread"], "quick": ["--p0", 1, "--p1", 2, "--p2", 3, "--p3", 3], "thorough": ["--p0", 1, "--p1", 3, "--p2", 4, "--p3", 4],
+         "deadline_share": 0.5, "floor": {"quick": 50000, "thorough": 1000000}},
         {"name": "mergepairs", "harness": "c04", "variant": "asan", "ldflags": ["-pthread"], "quick": ["--p0", 2, "--p1", 3, "--p2", 4], "thorough": ["--p0", 2, "--p1", 4, "--p2", 5],
          "deadline_share": 0.2, "floor": {"quick": 1000, "thorough": 10000}},
     ],
@@ -403,7 +403,7 @@ CHECKS["C20"] = {
                   "symlink while symlinks are refused, file mode refused, directory mode refused, malformed line, file vanishes between check and open, dangling symlink, unknown option item} (thorough: all pairs of positions): out-pointers "
                   "NULL/untouched/valid, ledger empty after releasing the valid handles; (c) the same two sweeps under clang MemorySanitizer with every returned "
                   "field checked for initialisation; (d) the free functions accept NULL and return NULL",
-    "level_note": "bounded: depth 4, 3 names, single faults (quick); depth 5, 3 names, pairs of faults (thorough); MSan build one level shallower; allocation failure is not injected; a block obtained through an "
+    "level_note": "bounded: depth 4, 2 names, single faults (quick); depth 5, 3 names, pairs of faults (thorough); MSan build one level shallower; allocation failure is not injected; a block obtained through an "
                   "un-wrapped libc entry point would not be tracked (missed leak, never a false one); LeakSanitizer is not the oracle",
     "rule": "case = state (canonical form) or (entry point, tree, fault kinds and positions); non-trivial = at least one setter call / at least one fault; distinct by canonical form / by construction",
     "deadline": {"quick": 110, "thorough": 1200},
@@ -411,7 +411,7 @@ CHECKS["C20"] = {
         {"name": "e2-ledger", "harness": "c20", "variant": "ledger", "shards": 1, "extra_srcs": ["ledger.c"], "ldflags": LEDGER_LD,
          "quick": ["--p0", 0, "--p1", 4], "thorough": ["--p0", 0, "--p1", 5], "deadline_share": 0.25, "floor": {"quick": 1000, "thorough": 10000}},
         {"name": "faults-ledger", "harness": "c20", "variant": "ledger", "extra_srcs": ["ledger.c"], "ldflags": LEDGER_LD,
-         "quick": ["--p0", 1, "--p1", 3, "--p2", 0], "thorough": ["--p0", 1, "--p1", 3, "--p2", 1], "deadline_share": 0.5, "floor": {"quick": 10000, "thorough": 100000}},
+         "quick": ["--p0", 1, "--p1", 2, "--p2", 0], "thorough": ["--p0", 1, "--p1", 3, "--p2", 1], "deadline_share": 0.5, "floor": {"quick": 10000, "thorough": 100000}},
         {"name": "nullfree", "harness": "c20", "variant": "ledger", "shards": 1, "extra_srcs": ["ledger.c"], "ldflags": LEDGER_LD,
          "quick": ["--p0", 2], "thorough": ["--p0", 2], "deadline_share": 0.02, "floor": {"quick": 2, "thorough": 2}},
         {"name": "e2-msan", "harness": "c20", "variant": "msan", "shards": 1, "cflags": ["-DNO_LEDGER"],
